@@ -62,13 +62,29 @@ def rate_cases():
 NPARTS = 3
 
 
+THOROUGH = False
+
+
 def _model_job(job) -> List[Dict[str, Any]]:
-    idx, part = job
+    global THOROUGH
+    idx, part, THOROUGH = job
     prog = Program()
     roles = prog.roles()[idx]
     out: List[Dict[str, Any]] = []
     init = roles.model.lookup("__init__")
-    jobs = ([("rate", kw) for kw in rate_cases()] + [(op, {}) for op in PUBLIC_OPS if op != "rate"])[part::NPARTS]
+    base = [("rate", kw) for kw in rate_cases()] + [(op, {}) for op in PUBLIC_OPS if op != "rate"]
+    if THOROUGH:
+        # every option class separately, an abstract callback, exact team counts
+        for kw in rate_cases():
+            for t in ("falsy", "truthy"):
+                for l in ("falsy", "truthy"):
+                    base.append(("rate", dict(kw, tau=t, limit_sigma=l)))
+        for kw in rate_cases()[:3]:
+            base.append(("rate", dict(kw, custom_gamma=True)))
+        for op in PUBLIC_OPS:
+            for n in ((2, 2), (3, 3), (8, 8)):
+                base.append((op, {"n": n}))
+    jobs = base[part::NPARTS]
     ctor_fields = None
     per_entry: Dict[str, Dict[str, int]] = {}
     for op, kw in jobs:
@@ -76,7 +92,9 @@ def _model_job(job) -> List[Dict[str, Any]]:
         stats = per_entry.setdefault(entry, {"runs": 0})
         stats["runs"] += 1
         try:
-            oc = run_op(prog, roles, op, custom_gamma=False, **kw)
+            kw2 = dict(kw)
+            cg = kw2.pop("custom_gamma", False)
+            oc = run_op(prog, roles, op, custom_gamma=cg, **kw2)
         except Exception as e:
             out.append(dict(rule="R14.1", verdict="UNDECIDED", module=roles.model.module.name, function=entry, construct=str(kw), line=0,
                             message=f"abstract evaluation failed: {type(e).__name__}: {e}", detail={}))
@@ -211,7 +229,7 @@ def run(prog: Program, rep: Report, tier: str = "quick") -> None:
     rep.trust("own name/callee resolver and call graph")
     rep.exhaustive = True
     seen = set()
-    for lst in parallel_map(_model_job, [(i, p) for i in range(len(roles)) for p in range(NPARTS)]):
+    for lst in parallel_map(_model_job, [(i, p, tier == "thorough") for i in range(len(roles)) for p in range(NPARTS)]):
         for d in lst:
             key = (d["rule"], d["verdict"], d["module"], d["function"], d["construct"])
             if key in seen:
